@@ -52,6 +52,15 @@ def step (st : St) (toks : List String) : St × String :=
       if i ≤ 0 || b < 1 then (st, "bad-op")
       else if Spec.boundOK i b gs then (st, "true") else (st, "false more than B+ceil(T/I) starts in some window")
     | _, _, _ => (st, "bad-op")
+  | ["oracle", "boundskew", i, b, reqs, starts] =>
+    -- request times that went backwards: the bound with the window stretched by the backward steps
+    match (kv? "I" [i]).bind int?, (kv? "B" [b]).bind int?, (kv? "reqs" [reqs]).bind intList?,
+          (kv? "starts" [starts]).bind intList? with
+    | some i, some b, some r, some gs =>
+      if i ≤ 0 || b < 1 then (st, "bad-op")
+      else if Spec.boundOKSkew i b (Spec.backSteps 0 r) gs then (st, "true")
+      else (st, "false more than B+ceil((T+S)/I) starts in some window")
+    | _, _, _, _ => (st, "bad-op")
   | ["oracle", "nodelay", reqs, starts] =>
     -- hooks without settings are not throttled: every execution starts at its request time
     match (kv? "reqs" [reqs]).bind intList?, (kv? "starts" [starts]).bind intList? with
